@@ -38,6 +38,10 @@ func propC09(p *Prog, r *Report) {
 
 	c09Guard(p, r)
 	c09Horizon(p, r)
+	r.Rule("C09.f", "a reader pins its content: content.Get returns the file opened by the call itself, so that a later removal by the collector cannot take the bytes away from a reader already handed out")
+	c09ReaderPinsContent(p, r, "C09.f")
+	r.Rule("C09.g", "the horizon is taken from the registry as it is now: transaction.Repo.Oldest answers from the ordered map in the same call (an answer replayed from another field is not decided, or a violation when its validity is decided by a clock)")
+	c10FreshMeasurements(p, r, "C09.g", "oldest")
 	c09OnePop(p, r)
 	{
 		tmp := NewReport("C02", r.Tier, r.Seed)
@@ -525,6 +529,8 @@ func propC17(p *Prog, r *Report) {
 	c04WhoMay(p, r, "C17.e")
 	r.Rule("C17.g", "canonical roots: the directory registry cleans every configured root before it is used as a key, stored, or becomes a directory's Root, so that ParseDir(Dir.Path()) gives the same Root back")
 	c17RootsCanonical(p, r, "C17.g")
+	r.Rule("C17.i", "free space is measured, not remembered (= C10.j)")
+	c10FreshMeasurements(p, r, "C17.i", "free")
 	r.Rule("C17.h", "the registry only names directories that exist: dir.Create updates the registry only after MkdirAll succeeded")
 	c17RegisterAfterMkdir(p, r, "C17.h")
 	c17Clamp(p, r)
